@@ -430,9 +430,16 @@ func revokedPillar(a dustArg) (*scenarioResult, error) {
 	if info, _ = definition.GetPillarInfo(st(), g.Pillar4Name); info != nil && info.RevokeTime == 0 {
 		return nil, fmt.Errorf("revoked-pillar scenario: the revocation did not go through")
 	}
+	tickNow := func() int64 {
+		return int64(p.Cons.FrontierPillarReader().EpochTicker().ToTick(*p.Frontier().Timestamp))
+	}
+	revokedIn := tickNow()
 	var perr error
-	for i := 0; i < 2*epochM+2*walk.UpdateMomentums; i++ {
+	for i := 0; i < 5*epochM && (tickNow() < revokedIn+3 || i%epochM < 2*walk.UpdateMomentums); i++ {
 		if perr = p.Produce(0); perr != nil {
+			break
+		}
+		if tickNow() >= revokedIn+3 && int(p.Height())%epochM > 2*walk.UpdateMomentums+5 {
 			break
 		}
 	}
@@ -446,8 +453,8 @@ func revokedPillar(a dustArg) (*scenarioResult, error) {
 	}
 	last, err := definition.GetLastEpochUpdate(st())
 	cur := int64(p.Cons.FrontierPillarReader().EpochTicker().ToTick(*p.Frontier().Timestamp))
-	if err != nil || last.LastEpoch < cur-3 {
-		find("pillar-rewards-stop-after-a-revocation", "the pillar contract has rewarded up to epoch %d while epoch %d is running, %d momentums after a pillar that had produced was revoked: the epochs it took part in are never rewarded", last.LastEpoch, cur, 2*epochM+2*walk.UpdateMomentums)
+	if err != nil || int64(last.LastEpoch) < revokedIn+1 {
+		find("pillar-rewards-stop-after-a-revocation", "a pillar that had produced was revoked in epoch %d; epoch %d is running now and the pillar contract has rewarded up to epoch %d only: the epochs the pillar took part in are never rewarded", revokedIn, cur, last.LastEpoch)
 	}
 	// two followers
 	all, err := p.Detailed(2, p.Height())
